@@ -1,4 +1,5 @@
 import Dmn.Model.Eval
+import Dmn.Model.DrgTable
 
 /-!
 # Decision requirement graphs (model of `model-evaluator/src/model_evaluator.rs`,
@@ -11,8 +12,9 @@ decision logic as syntax.  Evaluation mirrors the closures the builders create:
 
 * `evalBoxed env` — `build_expression_instance_evaluator` (`mod.rs:272`): a literal expression is
   the FEEL evaluator of its parsed text (`Eval.evalStep`); the boxed **context**, **invocation**,
-  **function definition** (whose closure is the one of an invocation, `mod.rs:330-349`) and
-  **relation** are modelled; decision tables are not (C03 models them over its own value type).
+  **function definition** (whose closure is the one of an invocation, `mod.rs:330-349`),
+  **relation** and **decision table** (`Dmn/Model/DrgTable.lean`: the cells through the FEEL
+  evaluator, the hit policy through the model of C03) are modelled.
   Boxed expressions are carried inside `Ast` (function values keep their body as `Ast`):
   they are wrapped in `Ast.commaList`, a node the parser never delivers as an expression and
   `build_evaluator` rejects.
@@ -80,14 +82,21 @@ definition (item definitions are C11's subject and are not modelled here). -/
 inductive VarTy where
   | untyped
   | simple (t : SimpleTy)
+  /-- the name of an item definition (`Dmn/Model/ItemDef.lean`, property C11) -/
+  | named (n : ID.Name)
   | other
   deriving DecidableEq, Repr, Inhabited
+
+/-- the depth to which references between item definitions are followed -/
+def itemFuel : Nat := 64
 
 namespace VarTy
 
 /-- The closure `build_variable_evaluator` returns (`mod.rs:155-269`) applied to
-`Value::Context(c)`: the entry named `name`, `null` when it is missing or has another type. -/
-def check (ty : VarTy) (name : String) (c : Ctx) : Value :=
+`Value::Context(c)`: the entry named `name`, `null` when it is missing or has another type; for
+a variable typed by an item definition the entry checked by that definition's evaluator
+(`item_definition_evaluator.eval(type_ref, value)`, the model of C11 on its own value type). -/
+def check (defs : ID.Defs) (ty : VarTy) (name : String) (c : Ctx) : Value :=
   match ty with
   | .untyped =>
     match Ctx.get c name with
@@ -97,11 +106,22 @@ def check (ty : VarTy) (name : String) (c : Ctx) : Value :=
     match Ctx.get c name with
     | some v => if t.accepts v then v else .null
     | none => .null
+  | .named n =>
+    match Ctx.get c name with
+    | some v =>
+      match DT.toDT v with
+      | some x =>
+        match ID.eval defs itemFuel n x with
+        | some r => DT.ofDT r
+        | none => .null
+      | none => Value.unsupported
+    | none => .null
   | .other => .null
 
-/-- `Variable::feel_type` (`mod.rs:144-152`). -/
-def ftype : VarTy → FType
+/-- `Variable::feel_type` (`mod.rs:144-152`): `information_item_type(type_ref, …).unwrap_or(Any)`. -/
+def ftype (defs : ID.Defs) : VarTy → FType
   | .simple t => t.ftype
+  | .named n => (ID.typeName defs itemFuel n).getD .any
   | _ => .any
 
 end VarTy
@@ -158,6 +178,8 @@ structure Drg where
   decisions : List Decision
   bkms : List Bkm
   services : List Service
+  /-- the top-level item definitions -/
+  items : ID.Defs := []
   deriving Inhabited
 
 /-- `HashMap::get` after the elements were `insert`ed in order: the last one wins. -/
@@ -213,6 +235,11 @@ def evalBoxed (env : Env) : Ast → EvalM Value
   | .commaList [.list rows] => do
     let rs ← evalBoxedRows env rows
     pure (.list rs)
+  -- `build_decision_table_evaluator` (`decision_table.rs:395-412`): the cells through the FEEL
+  -- evaluator, the hit policy through the model of C03 (`Dmn/Model/DrgTable.lean`)
+  | .commaList [.instanceOf (.string hitPolicy)
+      (.expressionList [.expressionList inputs, .expressionList outputs, .expressionList rules])] =>
+    Drg.evalTable env hitPolicy inputs outputs rules
   -- `build_literal_expression_evaluator` (`mod.rs:379-383`)
   | a => Eval.evalStep env a
 termination_by structural a => a
@@ -290,14 +317,14 @@ def dropName (o : Outcome (Option String × Ctx)) : Outcome Ctx :=
 def typedInputs (g : Drg) (ids : List String) (input : Ctx) (acc : Ctx) : Ctx :=
   ids.foldl (fun c id =>
     match g.findInput id with
-    | some i => Ctx.set c i.name (i.ty.check i.name input)
+    | some i => Ctx.set c i.name (i.ty.check g.items i.name input)
     | none => c) acc
 
 /-- `decision_service.rs:97-129`: the formal parameters of a decision service as a function —
 the input data first, then the output variables of the input decisions. -/
 def serviceParams (g : Drg) (s : Service) : List (String × FType) :=
-  s.inputData.filterMap (fun id => (g.findInput id).map (fun i => (i.name, i.ty.ftype))) ++
-  s.inputDecisions.filterMap (fun id => (g.findDecision id).map (fun d => (d.var, d.ty.ftype)))
+  s.inputData.filterMap (fun id => (g.findInput id).map (fun i => (i.name, (i.ty.ftype g.items)))) ++
+  s.inputDecisions.filterMap (fun id => (g.findDecision id).map (fun d => (d.var, (d.ty.ftype g.items))))
 
 /-- The output variables of the input decisions (`input_decision_results_evaluators`). -/
 def inputDecisionVars (g : Drg) (s : Service) : List (String × VarTy) :=
@@ -305,7 +332,7 @@ def inputDecisionVars (g : Drg) (s : Service) : List (String × VarTy) :=
 
 /-- `decision_service_as_function_definition_evaluator` (`decision_service.rs:229-231`). -/
 def serviceFn (g : Drg) (s : Service) : Value :=
-  .fn (g.serviceParams s) (Boxed.service s.id) s.ty.ftype
+  .fn (g.serviceParams s) (Boxed.service s.id) (s.ty.ftype g.items)
 
 /-- `evaluate_as_function_definition` for every required knowledge id (`decision.rs:158-160`). -/
 def serviceFns (g : Drg) (ids : List String) (acc : Ctx) : Ctx :=
@@ -380,7 +407,7 @@ def decisionClosure (g : Drg) (env : Env) (prev : Graph) (d : Decision) (input s
       let ctx := Ctx.zip inputs k4
       -- the logic in a fresh scope, coerced, stored under the output variable
       match evalBoxed env d.logic [ctx] with
-      | .ok (v, _) => .ok (some d.var, Ctx.set out d.var (Value.coerced d.ty.ftype v))
+      | .ok (v, _) => .ok (some d.var, Ctx.set out d.var (Value.coerced (d.ty.ftype g.items) v))
       | .panic p => .panic p
       | .diverge => .diverge
     | .panic p => .panic p
@@ -402,7 +429,7 @@ evaluated as a knowledge model and bound as a decision service function, then th
 value is stored. -/
 def bkmClosure (g : Drg) (prev : Graph) (b : Bkm) (input out : Ctx) : Outcome Ctx :=
   match foldCtx (bkmRequirement g prev input) b.reqKnowledge out with
-  | .ok out1 => .ok (Ctx.set out1 b.var (.fn b.params b.body b.ty.ftype))
+  | .ok out1 => .ok (Ctx.set out1 b.var (.fn b.params b.body (b.ty.ftype g.items)))
   | .panic p => .panic p
   | .diverge => .diverge
 
@@ -411,8 +438,8 @@ the typed values of the input decisions' variables taken from the evaluated inpu
 then — unconditionally — from the provided input data. -/
 def serviceInputDecisions (g : Drg) (s : Service) (inputDecisionResults input : Ctx) : Ctx :=
   let vars := g.inputDecisionVars s
-  let e1 := vars.foldl (fun c v => Ctx.set c v.1 (v.2.check v.1 inputDecisionResults)) []
-  vars.foldl (fun c v => Ctx.set c v.1 (v.2.check v.1 input)) e1
+  let e1 := vars.foldl (fun c v => Ctx.set c v.1 (v.2.check g.items v.1 inputDecisionResults)) []
+  vars.foldl (fun c v => Ctx.set c v.1 (v.2.check g.items v.1 input)) e1
 
 /-- `evaluated_input_data` (`decision_service.rs:158-177`): these, then the required inputs. -/
 def serviceInputs (g : Drg) (s : Service) (inputDecisionResults input : Ctx) : Ctx :=
@@ -430,7 +457,7 @@ def serviceClosure (g : Drg) (prev : Graph) (s : Service) (input out : Ctx) :
     match foldCtx (fun id c => dropName (callDecision g prev id evaluatedInput sup c)) s.encapsulated [] with
     | .ok c1 =>
       match outputLoop (fun id c => callDecision g prev id evaluatedInput sup c) s.output [] c1 with
-      | .ok (names, c2) => .ok (some s.var, serviceResult s.ty.ftype names c2 s.var out)
+      | .ok (names, c2) => .ok (some s.var, serviceResult (s.ty.ftype g.items) names c2 s.var out)
       | .panic p => .panic p
       | .diverge => .diverge
     | .panic p => .panic p
